@@ -413,7 +413,7 @@ class SymEval:
             return UNIT
         if k == "call":
             p = path_of(e[1]) or ""
-            if p in env and isinstance(env[p], tuple) and env[p][0] in ("closure", "fnref"):
+            if p in env and isinstance(env[p], tuple) and (env[p][0] in ("closure", "fnref") or (env[p][0] == "enum" and not env[p][2])):
                 return self.apply(env[p], [self.ev(a, env) for a in e[2]])
             if p.split("::")[-1] in ("panic_fmt", "panic", "begin_panic", "panic_display", "unreachable_display", "panic_explicit", "assert_failed"):
                 raise Panic(p.split("::")[-1])
@@ -505,6 +505,9 @@ class SymEval:
                 return ("list", [])
             if "::" in p and p.split("::")[-1][:1].isupper():
                 return ("enum", self.enum_name(p), args)
+            ts_ = _tuple_struct(p, getattr(self.h, "self_ty", None) or getattr(self, "fn_self_ty", None))
+            if ts_ is not None and ts_[1] == len(args):
+                return ("struct", ts_[0], {str(i_): a_ for i_, a_ in enumerate(args)})      # a tuple struct of the crate: fields "0", "1", ..
             fn = self.h.resolve_fn(p)
             if fn is not None and self.depth < 6:
                 ps = [q[0] for q in fn["sig"]["params"] if q[0] != "self"]
@@ -518,6 +521,9 @@ class SymEval:
                             return r_.v
                     finally:
                         self.depth -= 1
+            if args and p.split("::")[-2:-1] and p.split("::")[-2] in ("IntoIterator", "Iterator", "DoubleEndedIterator", "ExactSizeIterator", "Clone", "ToOwned",
+                                                                       "ToString", "AsRef", "AsMut", "Borrow", "Extend", "Deref", "DerefMut", "Option", "Result", "Vec"):
+                return self.apply(("fnref", p), args)       # `Trait::method(x, ..)`: the method call `x.method(..)`
             self.fail("call", e)
         if k == "mcall":
             return self.mcall(e, env)
@@ -625,6 +631,10 @@ class SymEval:
                 it = ("list", it[1])
             if isinstance(it, tuple) and it[0] == "lazy":
                 it = ("list", LazyItems(self, it))
+            if it == NONE:
+                it = ("list", [])           # `for x in &option`: no or one element
+            elif isinstance(it, tuple) and it[0] == "some" and len(it) == 2:
+                it = ("list", [it[1]])
             if not (isinstance(it, tuple) and it[0] == "list"):
                 self.fail("for over a non-list %r" % (it,), e[2])
             for item in it[1]:
@@ -1276,6 +1286,8 @@ class SymEval:
                             shape = shape[1]
                     except (Anchor, Panic):
                         shape = None
+                if src is not None and src[0] == "mcall" and src[2] in ("get", "get_mut") and len(src[3]) == 1 and unblock(src[3][0])[0] == "range":
+                    return ("list", [])         # Option<&[T]>: the empty slice
                 if isinstance(shape, tuple) and shape and shape[0] in ("fmt", "str", "join", "text"):
                     return ("str", "")
                 if isinstance(shape, tuple) and shape and shape[0] == "list":
@@ -1303,7 +1315,7 @@ class SymEval:
                 if not some:
                     return m == "is_none_or"
                 return self.apply(args[0], [recv[1]])
-            if m in ("into_iter", "iter_mut"):
+            if m in ("into_iter", "iter_mut", "as_slice", "as_mut_slice") and not args:
                 return ("list", [recv[1]] if some else [])
             if m == "flatten" and not args:
                 return recv[1] if some else NONE
@@ -1349,6 +1361,11 @@ class SymEval:
         if isinstance(recv, tuple) and recv[0] == "chunks":
             if m == "remainder":
                 return recv[2]
+            if m == "next" and not args:
+                nm_ = path_of(e[1]) if e is not None else None
+                if nm_ is not None and nm_ in env:
+                    env[nm_] = ("chunks", recv[1][1:], recv[2])
+                return ("some", recv[1][0]) if recv[1] else NONE
             if m == "map" and len(args) == 1:
                 return ("list", [self.apply(args[0], [x]) for x in recv[1]])
             if m in ("iter", "into_iter"):
@@ -1378,6 +1395,18 @@ class SymEval:
             n_ = getattr(self, "bytes_hint", None) or 4
             bs = [(recv >> (8 * i_)) & 0xff for i_ in range(n_)]
             return ("list", bs if m == "to_le_bytes" else list(reversed(bs)))
+        if isinstance(recv, int) and not isinstance(recv, bool) and len(args) == 1 and isinstance(args[0], int) and not isinstance(args[0], bool) \
+                and m in ("checked_add", "checked_sub", "checked_mul", "checked_div", "saturating_sub", "saturating_add", "saturating_mul", "abs_diff"):
+            # the values are word counts / byte offsets (usize on every supported target: 64 bits)
+            a_, b_ = recv, args[0]
+            if m == "abs_diff":
+                return abs(a_ - b_)
+            if m == "checked_div":
+                return NONE if b_ == 0 else ("some", a_ // b_)
+            r_ = a_ + b_ if m.endswith("add") else a_ - b_ if m.endswith("sub") else a_ * b_
+            if m.startswith("checked"):
+                return ("some", r_) if 0 <= r_ < (1 << 64) else NONE
+            return min(max(r_, 0), (1 << 64) - 1)
         if isinstance(recv, bool) and m == "then" and len(args) == 1:
             return ("some", self.apply(args[0], [])) if recv else NONE
         if isinstance(recv, bool) and m == "then_some" and len(args) == 1:
@@ -1562,6 +1591,16 @@ class SymEval:
                     if r is None:
                         res = None
                 return res
+            if isinstance(v, tuple) and v and v[0] == "struct" and v[1] == ctor and all(str(i_) in v[2] for i_ in range(len(pat[2]))) \
+                    and len(pat[2]) == len(v[2]) and not any(p[0] == "p_rest" for p in pat[2]):
+                res = True          # a tuple struct destructured
+                for i_, p in enumerate(pat[2]):
+                    r = self.match_pat(p, v[2][str(i_)], env)
+                    if r is False:
+                        return False
+                    if r is None:
+                        res = None
+                return res
             r = self.h.match_ts(v, pat, env, self)
             return None if r is NotImplemented else r
         return None
@@ -1653,6 +1692,28 @@ def _const_items(ctx):
     return out
 
 
+def _tuple_struct(p, self_ty=None):
+    """(name, number of fields) if the path names a tuple struct of the analysed crates"""
+    ctx = DEFAULT_CTX
+    if ctx is None or not p:
+        return None
+
+    def build():
+        out = {}
+        for cr in (ctx.rspirv, ctx.dis):
+            for m in cr.modules():
+                for it in cr.items(m, "struct"):
+                    if it.get("named") is False and it.get("fields"):
+                        out.setdefault(it["name"], set()).add(len(it["fields"]))
+        return out
+    idx = ctx.memo("tuple_structs", build)
+    name = p.split("::")[-1]
+    if name == "Self" and isinstance(self_ty, str):
+        name = self_ty.split("<")[0].split("::")[-1]
+    ns = idx.get(name)
+    return (name, next(iter(ns))) if ns and len(ns) == 1 else None
+
+
 def _free_fns(ctx):
     out = {}
     for m in ctx.rspirv.modules():
@@ -1722,6 +1783,9 @@ class Chain:
     def resolve_const(self, path):
         return self._both("resolve_const", path)
 
+    def type_of(self, v):
+        return self._both("type_of", v)
+
     def resolve_fn(self, path):
         r = self.first.resolve_fn(path)
         return r if r is not None else self.second.resolve_fn(path)
@@ -1759,6 +1823,10 @@ class Hooks:
         return NotImplemented
 
     def cast(self, v, ty, e):
+        return NotImplemented
+
+    def type_of(self, v):
+        """the Rust type of an abstract value of the rule, when the rule knows it (NotImplemented: unknown)"""
         return NotImplemented
 
     def resolve_const(self, path):
